@@ -28,7 +28,7 @@ pub(super) mod sockstate {
 }
 
 /// Error kinds a socket call may fail with (representatives of every class the mapper distinguishes).
-fn mk_err(code: u8, addr: std::net::SocketAddr, op: u8) -> IoError {
+pub(super) fn mk_err(code: u8, addr: std::net::SocketAddr, op: u8) -> IoError {
     use std::io::ErrorKind as K;
     let e = match code {
         1 => std::io::Error::from(K::AddrInUse),
